@@ -16,6 +16,9 @@ RULE = (
     "invocations carrying a fault plan (step fail_before/fail_after/torn EFBIG/torn SIGXFSZ on a dirty edge, "
     "driver torn/killed, whole invocation killed after k edges, source edited during the build), then ONE "
     "fault-free invocation, then a clean build of the same inputs at the same path as reference. "
+    "Further generators: variable-font projects, revert patterns (edit, failing step that wrote, undo), walks through the bitmap "
+    "pipeline (pngquant succeeding / giving up, zopflipng on / off, flat / rich artwork). Fault kinds also include a step or the "
+    "driver killed just before its k-th file-system mutation and a failing / killed inner tool (pngquant). "
     "thorough adds an exhaustive single-fault sweep over fixed base states (quick: a reduced sweep over one base state chosen by the seed). "
     "distinct = distinct (op kinds, per-invocation set of (rule, dirtiness reason), fired fault kinds); "
     "non-trivial = the final invocation met state left by at least one earlier invocation."
